@@ -114,6 +114,9 @@ func (m *Sign1Message) Sign(rand io.Reader, external []byte, signer Signer) erro
 	if err != nil {
 		return err
 	}
+	if len(sig) == 0 {
+		return ErrEmptySignature
+	}
 
 	m.Signature = sig
 	return nil
